@@ -207,6 +207,7 @@ impl Screen {
             return; // No changes.
         }
 
+        self.dirty.clear();
         self.dirty.extend(0..lines);
 
         if lines < self.lines {
